@@ -52,8 +52,19 @@ def main(argv=None):
             mod.check(run)
     except tlc.TLCError as e:
         run.machinery("TLC: %s" % e)
-    except Exception:
-        run.machinery("driver crashed:\n" + traceback.format_exc())
+    except Exception as ex:
+        tb = traceback.extract_tb(ex.__traceback__)
+        inlib = bool(tb) and "/src/whoosh/" in tb[-1].filename.replace("\\", "/")
+        if inlib and not a.replay:
+            # The exception was raised inside the library, by a call of the driver that nothing guards because it
+            # cannot fail on a tree where the property holds (building an index from admissible documents,
+            # committing, opening a searcher): the library failing there is a violation, not a fault of the check.
+            # The part of the check after that call did not run.
+            run.violation({"check": "%s-driver-call-raised" % pid.lower(), "err": type(ex).__name__,
+                           "where": "%s:%s" % (tb[-1].filename.split("/")[-1], tb[-1].name)},
+                          {"traceback": traceback.format_exc()[-3000:]})
+        else:
+            run.machinery("driver crashed:\n" + traceback.format_exc())
     return run.finish()
 
 
